@@ -224,7 +224,31 @@ def transact_block(pid):
                         for x in _ast.walk(t):
                             if isinstance(x, _ast.Attribute) and x.attr == '_txn_id':
                                 writers.append('%s.%s (line %d)' % (mname, node.name, sub.lineno))
-    foreign_writers = sorted(set(w for w in writers if not w.split(' ')[0].endswith(('core.__init__', 'core._transact'))))
+    # a helper that is only ever called from the block code itself (e.g. an extracted "end of block" method)
+    # counts as part of it
+    def enclosing_calls(fname):
+        sites = []
+        for mname, mod in ctx.program.modules.items():
+            for node in _ast.walk(mod.tree):
+                if isinstance(node, (_ast.FunctionDef, _ast.AsyncFunctionDef)):
+                    for sub in _ast.walk(node):
+                        if isinstance(sub, _ast.Call):
+                            f = sub.func
+                            nm = f.attr if isinstance(f, _ast.Attribute) else (f.id if isinstance(f, _ast.Name) else None)
+                            if nm == fname and node.name != fname:
+                                sites.append(node.name)
+        return sites
+    allowed = {'__init__', '_transact'}
+    changed = True
+    names = set(w.split(' ')[0].rsplit('.', 1)[-1] for w in writers)
+    while changed:
+        changed = False
+        for nm in sorted(names - allowed):
+            sites = enclosing_calls(nm)
+            if sites and all(x in allowed for x in sites):
+                allowed.add(nm)
+                changed = True
+    foreign_writers = sorted(set(w for w in writers if w.split(' ')[0].rsplit('.', 1)[-1] not in allowed))
     out.append(Result('%s.transact.owner_mark_written_only_by_the_block' % pid, 'frame', 'proved' if not foreign_writers else 'refuted', ms=0,
                       backend='engine', function='Cache (all methods)',
                       detail=None if not foreign_writers else 'the owner mark _txn_id is also written by %s: a thread that is not inside the '
